@@ -818,8 +818,12 @@ class NetworkGraph(AbstractBaseIR):
                         else:
                             post_var = info['var']
                             post_op = info['op']
-                            expr_map[ev] = f'broadcast_post({post_var})'
-                            source_vars[post_var] = {'sources': [post_op], 'node': tnode, 'var': post_var}
+                            # own key: a source variable of the same name (another population) must not be
+                            # overwritten; the source variable itself (self-coupling) keeps its one name
+                            post_key = s_str if (tnode, post_op, post_var) == (snode, sop, svar) \
+                                else f'{post_var}_post{i}'
+                            expr_map[ev] = f'broadcast_post({post_key})'
+                            source_vars[post_key] = {'sources': [post_op], 'node': tnode, 'var': post_var}
 
                     if edge_de_sv_names:
                         # case 0c: dynamic edge
